@@ -213,6 +213,18 @@ pub fn run(ctx: &mut Ctx) {
             do_string(ctx, &format!("a{}{}", pre, suf), true, true);
         }
     }
+    // every encodable character below U+0250 — the C1 controls U+0080..U+009F (where Latin-1 and LFS's default CP1252 part
+    // ways), the Latin-1 supplement and the Latin extensions — alone, between reserved characters, and after a codepage switch
+    let mut low = 0u64;
+    for cp in 0x80u32..0x250 {
+        let c = match char::from_u32(cp) { Some(c) => c, None => continue };
+        if !crate::text::encodable_somewhere(c) { continue; }
+        low += 1;
+        do_string(ctx, &c.to_string(), true, true);
+        do_string(ctx, &format!("^ café <{}> ^1a|b", c), cp % 8 == 0, true);
+        do_string(ctx, &format!("ж{}ж", c), cp % 8 == 0, true);
+    }
+    ctx.exhaustive_domains.push(format!("wire clause: each of the {} encodable characters in U+0080..U+024F alone, inside escaped Latin-1 text, and between Cyrillic letters", low));
     // ^8 (colour *and* codepage reset) in every position relative to codepage text: at the end, directly before a switch, alone
     for t in ["^8", "abc^8", "^1red^8", "\u{428}\u{443}\u{43c}^8", "^8\u{448}", "^1abc^8\u{11b}\u{161}", "\u{448}^8\u{7f8e}", "a^8b", "^8^8", "x^8\u{e9}"] {
         do_string(ctx, t, true, true);
